@@ -1,11 +1,11 @@
 (* C16 — the strategy loop walks the whole dataset and records a faithful history. Statements only. The composition strategy + broker + eager client + Uist server + Uist exchange is Model/Strategy.v (sys_update, sys_run); the structural theorems hold for every Num F, the two ledgers at F := R. *)
-From Coq Require Import ZArith NArith List Bool String Reals Permutation.
+From Coq Require Import ZArith NArith List Bool String Reals Permutation Floats.
 From Flocq Require Import Raux.
 From Alator Require Import Model.Num Model.Quirks Model.Cost Model.Exchange Model.Uist Model.Server
   Model.Broker Model.Perf Model.Strategy
   Proofs.ServerProofs Proofs.BrokerLedgerProofs Proofs.BrokerLiqProofs Proofs.UistProofs
   Proofs.ExchangeProofs Proofs.ExchangeCorollaries Proofs.StrategyProofs Proofs.EndToEnd16
-  Model.Penelope Proofs.PenelopeProofs Proofs.EndToEndCor.
+  Model.Penelope Proofs.PenelopeProofs Proofs.EndToEndCor Proofs.EndToEndExamples.
 Import ListNotations.
 Local Existing Instance RNum.
 
@@ -16,13 +16,13 @@ Theorem c16_update_one_snapshot :
            (now : Z) (ord : list string) (s' : strategy F) (fw : list (uorder F)),
          st_update qk s resp now ord = Ok (s', fw) ->
          st_history s' =
-         st_history s ++
-         [{|
-            sn_date := now;
-            sn_value := total_value (st_brkr s') ord;
-            sn_ncf := st_ncf s;
-            sn_infl := fzero
-          |}] /\ st_ncf s' = st_ncf s /\ st_weights s' = st_weights s.
+         (st_history s ++
+          [{|
+             sn_date := now;
+             sn_value := total_value (st_brkr s') ord;
+             sn_ncf := st_ncf s;
+             sn_infl := fzero
+           |}])%list /\ st_ncf s' = st_ncf s /\ st_weights s' = st_weights s.
 Proof. exact @st_update_snapshot. Qed.
 
 (* In the composition one update is exactly one tick of the strategy's backtest, and the snapshot is dated with the clock date after that tick. *)
@@ -44,13 +44,13 @@ Theorem c16_update_is_one_tick :
             clock_ok d b' (S k) /\
             (exists v : F,
                st_history (sy_strat y') =
-               st_history (sy_strat y) ++
-               [{|
-                  sn_date := bt_date b';
-                  sn_value := v;
-                  sn_ncf := st_ncf (sy_strat y);
-                  sn_infl := fzero
-                |}])).
+               (st_history (sy_strat y) ++
+                [{|
+                   sn_date := bt_date b';
+                   sn_value := v;
+                   sn_ncf := st_ncf (sy_strat y);
+                   sn_infl := fzero
+                 |}])%list)).
 Proof. exact @sys_update_clock. Qed.
 
 (* run() on a backtest that has done k <= N ticks: whenever it returns it has performed exactly N - k updates (N from a fresh backtest), recorded exactly that many snapshots, and snapshot m is dated with the clock after tick k+m+1 — d_{min(k+m+2, N)} in the property's numbering, hence non-decreasing for increasing datasets. *)
@@ -195,7 +195,7 @@ Theorem c16_update_keeps_worth :
          sys_inv price y' /\
          worth price (st_brkr (sy_strat y')) = worth price (st_brkr (sy_strat y)) /\
          (exists sn : snapshot R,
-            st_history (sy_strat y') = st_history (sy_strat y) ++ [sn] /\
+            st_history (sy_strat y') = (st_history (sy_strat y) ++ [sn])%list /\
             sn_value sn = worth price (st_brkr (sy_strat y))).
 Proof. exact @sys_update_const. Qed.
 
@@ -207,7 +207,7 @@ Theorem c16_run_keeps_worth :
          sys_run clean fuel y perms ords i = Ok (y', n) ->
          sys_inv price y' /\
          (exists new : list (snapshot R),
-            st_history (sy_strat y') = st_history (sy_strat y) ++ new /\
+            st_history (sy_strat y') = (st_history (sy_strat y) ++ new)%list /\
             Forall (fun sn : snapshot R => sn_value sn = worth price (st_brkr (sy_strat y))) new).
 Proof. exact @sys_run_const. Qed.
 
@@ -260,9 +260,28 @@ Theorem c16_constant_prices_with_withdrawals :
          yrun y0 pre = Ok y1 ->
          sys_update clean y1 perm ord = Ok y2 ->
          exists sn : snapshot R,
-           st_history (sy_strat y2) = st_history (sy_strat y1) ++ [sn] /\
+           st_history (sy_strat y2) = (st_history (sy_strat y1) ++ [sn])%list /\
            sn_value sn = (c - ywithdrawn y0 pre)%R.
 Proof. exact @c16_constant_prices_with_withdrawals. Qed.
+
+(* Non-vacuity, kernel-evaluated at the IEEE instance: a 3-date constant zero-spread dataset with a gap, 1 % costs, two weights, deposit 1000: three updates, three snapshots each worth exactly 1000, positions opened along the way. *)
+Theorem c16_end_to_end_example :
+  @bind (sys float) (list string * list (Z * float) * option bool) ex_start
+           (fun y0 : sys float =>
+            @bind (sys float) (list string * list (Z * float) * option bool) 
+              (try_update y0)
+              (fun y1 : sys float =>
+               @bind (sys float) (list string * list (Z * float) * option bool) 
+                 (try_update y1)
+                 (fun y2 : sys float =>
+                  @bind (sys float) (list string * list (Z * float) * option bool)
+                    (try_update y2)
+                    (fun y3 : sys float =>
+                     @Ok (list string * list (Z * float) * option bool) (show y3))))) =
+         @Ok (list string * list (Z * float) * option bool)
+           (["BCD"; "ABC"], [(2%Z, 1000%float); (3%Z, 1000%float); (3%Z, 1000%float)],
+            @Some bool false).
+Proof. exact @c16_end_to_end_observed_at_floats. Qed.
 
 (* [R] The dataset premise holds of every Penelope loaded with bid = ask = price(symbol) on every add_quote call. *)
 Theorem c16_dataset_constant_when_loaded_so :
@@ -298,5 +317,6 @@ Print Assumptions c16_update_keeps_worth.
 Print Assumptions c16_run_keeps_worth.
 Print Assumptions c16_constant_prices_end_to_end.
 Print Assumptions c16_constant_prices_with_withdrawals.
+Print Assumptions c16_end_to_end_example.
 Print Assumptions c16_dataset_constant_when_loaded_so.
 Print Assumptions c16_refuted_q_strategy_ncf_self_add.
